@@ -470,7 +470,9 @@ func TestC17RegistryStress(t *testing.T) {
 	}
 	hx.NonTrivial(hx.Digest("registry-stress"))
 	hx.NonTrivial(hx.Digest("registry-stress-2"))
-	hx.Sample(func() any { return "8 goroutines x 1500 rounds of register / lookup / unregister / lookup, each on its own private key" })
+	hx.Sample(func() any {
+		return "8 goroutines x 1500 rounds of register / lookup / unregister / lookup, each on its own private key"
+	})
 	if len(failures) > 0 {
 		hx.RecordFailure("C17RegistryStress", strings.Join(failures, "; "), map[string]any{"program": "8 goroutines x 1500 rounds on private keys"})
 		t.Fatalf("%s", strings.Join(failures, "\n"))
